@@ -18,7 +18,7 @@ EXPLANATION = (
     "positionally from self.weather_df) whole-row operations (dropna, drop_duplicates, duplicated) name the columns they look at - an unrelated "
     "extra column must not decide which days survive. C15.d (day binding): the frame read_weather_inputs returns is guarded by a raising test that "
     "compares its dates for equality with clock.time_span, and the frame is not re-defined after that comparison - the daily step and the "
-    "season-long degree-day sums address rows by day number, so a missing / duplicated / out-of-order record must not get through. C15.e: a bookkeeping column the model adds ('gdd', 'season') is written only into a frame the model built itself or restricted by name to the required columns - never into a frame that still carries the user's extra columns. NOT decided: numerical identity of the runs.")
+    "season-long degree-day sums address rows by day number, so a missing / duplicated / out-of-order record must not get through. C15.e: a bookkeeping column the model adds ('gdd', 'season') is written only into a frame the model built itself or restricted by name to the required columns - never into a frame that still carries the user's extra columns. C15.f: rows of the weather frame are never dropped or selected through the labels of the user's index (repeated labels), only by masks on columns, by position, or by labels of an index the function itself set from the Date column. NOT decided: numerical identity of the runs.")
 
 RECEIVER = {
     "MinTemp": re.compile(r"(^|_)(t?min|temp_min|tmin)", re.I),
@@ -116,4 +116,7 @@ def run(chk, prog, tier):
     from ._weather import scratch_columns
     nsc = scratch_columns(chk, prog, "C15.e")
     chk.notes["C15.e_column_stores_in_weather_functions"] = nsc
+    # ---------------------------------------------------------------- C15.f
+    from ._weather import label_row_ops
+    chk.notes["C15.f_label_row_operations"] = label_row_ops(chk, prog, "C15.f")
     chk.exhaustive = True
